@@ -308,14 +308,30 @@ def snap_containers(det):
             out[name] = snap_nd(c.array)
         except Exception:  # noqa: BLE001     (reading an uninitialised container raises)
             out[name] = None
-    ch = det.charge
-    fr = ch.frame
-    out["charge"] = {"array": snap_nd(ch.array),
-                     "frame": {"rows": int(len(fr)),
-                               "columns": {str(c): [float(x) for x in fr[c].tolist()] for c in sorted(fr.columns)}}}
-    out["scene"] = snap_tree(det.scene.data)
-    out["data"] = snap_tree(det.data)
+    def guarded(name, fn):
+        # a container of a *loaded* detector that cannot even be read is a difference, not a harness error
+        try:
+            out[name] = fn()
+        except Exception as e:  # noqa: BLE001
+            out[name] = {"unreadable": f"{type(e).__name__}: {str(e)[:100]}"}
+
+    def charge():
+        ch = det.charge
+        fr = ch.frame
+        return {"frame": {"rows": int(len(fr)),
+                          "columns": {str(c): [float(x) for x in fr[c].tolist()] for c in sorted(fr.columns)}},
+                "array": snap_nd(ch.array)}
+
+    guarded("charge", charge)
+    guarded("scene", lambda: snap_tree(det.scene.data))
+    guarded("data", lambda: snap_tree(det.data))
     return out
+
+
+def assert_readable(snap, what):
+    txt = json.dumps(snap, default=str)
+    if '"unreadable"' in txt:
+        raise RuntimeError(f"harness: {what} cannot be read back: {txt[txt.index('unreadable'):][:200]}")
 
 
 def snap_detector(det):
@@ -497,6 +513,7 @@ def run_roundtrip(case):
     det = build_detector(kind, pal)
     fill_containers(det, combo)
     before = snap_detector(det)
+    assert_readable(before, "a container of the freshly built detector")
     ok = 0
     d = tempfile.mkdtemp(prefix="vp_")
     try:
@@ -584,6 +601,7 @@ def run_model(case):
         fill_containers(stored, combo, salt=0.0)
         stored.save(path)
         want = snap_containers(stored)
+        assert_readable(want, "a container of the stored detector")
 
         running = build_detector(kind, "all")
         fill = ("props.c18_save_load.m_fill", "fill", {"combo": combo, "salt": 50.0})
